@@ -14,10 +14,13 @@ func main() {
 		"List/OrderedMap operation on any earlier value), every result compared with the immutable-sequence / insertion-ordered-map " +
 		"reference and all query methods with the element walk; non-trivial = merges into / deletes from / looks up in a non-empty " +
 		"hash, or changes a non-empty array, or parses a literal with more than one entry. " +
-		"StringHash: all histories of length<=L over a 14-operation mutating alphabet on 4 keys (bounded-exhaustive, " +
-		"full observation after every step) + seeded random multi-object histories; a history is non-trivial when it " +
+		"StringHash: all histories of length<=L over a 16-operation mutating alphabet on 4 keys (bounded-exhaustive, " +
+		"full observation after every step) + all iterations (5 kinds) of hashes of <= 4 entries and 3-4 capacities whose callback " +
+		"re-enters the hash (Delete / Put / ComputeIfAbsent at each call, every sequence) + seeded random multi-object histories; " +
+		"a history is non-trivial when it " +
 		"contains a Delete of a present key that is not the last entry, or a mutation of a frozen hash, or a Merge/PutAll " +
-		"with a non-empty operand, or a ComputeIfAbsent whose mapping function panics or re-enters the hash; " +
+		"with a non-empty operand, or a ComputeIfAbsent whose mapping function panics or re-enters the hash, or an iteration " +
+		"whose callback mutates the hash; " +
 		"distinct = distinct operation sequences"
 	rng := lib.NewRng(cfg.Seed)
 	if cfg.Replay != "" {
@@ -93,6 +96,12 @@ func shNontrivial(c shCase) bool {
 			}
 		case "Merge":
 			return true
+		case "Iter":
+			for _, a := range o.Acts {
+				if a.A != "" {
+					return true
+				}
+			}
 		}
 	}
 	return false
@@ -105,7 +114,9 @@ func runStringHash(cfg *lib.Config, res *lib.Result, rng *lib.Rng) {
 	coqBudget := 400
 	nRandom := 3000
 	randomCoq := 300
+	iterCoq := 400
 	if cfg.Thorough() {
+		iterCoq = 4000
 		maxLen = 5
 		coqBudget = 3000
 		nRandom = 100000
@@ -164,6 +175,16 @@ func runStringHash(cfg *lib.Config, res *lib.Result, rng *lib.Rng) {
 	}
 	res.Extra["stringhash_exhaustive_histories"] = idx
 	res.Extra["stringhash_exhaustive_max_len"] = maxLen
+	// iterations whose callback re-enters the hash
+	nIter := 0
+	shIterFamily(func(ops []shOp) { nIter++ })
+	iterStride := nIter/iterCoq + 1
+	j := 0
+	shIterFamily(func(ops []shOp) {
+		j++
+		check(ops, j%iterStride == 0, "iter-reentrant")
+	})
+	res.Extra["stringhash_reentrant_iterations"] = nIter
 	for i := 0; i < nRandom; i++ {
 		r := rng.Fork()
 		check(randomShHistory(r, 5+r.Intn(40)), i < randomCoq, "random")
